@@ -324,25 +324,89 @@ def dec_family(world: World, res: Result, tier: str):
         res.add(Obligation("dec/DefaultFunction::decode", "undecided", str(e)))
 
 
+def act_family(world: World, res: Result, tier: str):
+    """semantic actions of the UPLC text grammar (peg-generated closures) that turn matched text into values: executed
+    from MIR on a SYMBOLIC identifier; a feasible panic is replayed through the real parser on `(program 1.0.0 (builtin <id>))`"""
+    from mirsym.summaries import ByteSeq
+    name = "act/builtin-name"
+    ob = Obligation(name, "discharged", "")
+    ex = world.executor(timeout_ms=20000, max_paths=400, max_steps=20000)
+    try:
+        fn = world.main.functions.get("__parse_builtin::{closure#0}")
+        if fn is None:
+            raise Unsupported("semantic action of rule builtin() not found in MIR (grammar restructured?)")
+        st = ex.new_state()
+        s = z3.Const("ident", ByteSeq)
+        n = 10
+        st.pc.append(z3.And(z3.Length(s) >= 1, z3.Length(s) <= n))
+        for i in range(n):
+            c = s[i]
+            st.pc.append(z3.Implies(z3.Length(s) > i, z3.And(z3.UGE(c, ord("a")), z3.ULE(c, ord("z")))))
+        sref = ex.alloc(st, Str(s))
+        clos = ex.alloc(st, Closure("__parse_builtin::{closure#0}", (sref,))) if False else ex.alloc(st, Tup((sref,)))
+        outs = ex.run(fn, [clos], st)
+    except Unsupported as e:
+        ob.status, ob.detail = "undecided", str(e)
+        res.add(ob)
+        return
+    npanic = nret = 0
+    for o in outs:
+        if o.kind == "undecided":
+            ob.status, ob.detail = "undecided", o.msg
+        elif o.kind == "panic":
+            npanic += 1
+            m = ex.model(o.pc)
+            ident = None
+            if m is not None:
+                from mirsym.summaries import _concrete_bytes
+                try:
+                    ident = _concrete_bytes(m.eval(s, True)).decode()
+                except Exception:
+                    ident = None
+            vb = Obligation(name + "/panic", "violated", f"the action of grammar rule builtin() panics on identifier {ident!r}: {o.msg}")
+            vb.model = {"ident": ident, "text": f"(program 1.0.0 (builtin {ident}))"}
+            vb.finding_key = "act/builtin-name: panic on unknown builtin name"
+            res.add(vb)
+        else:
+            nret += 1
+    if ob.status == "discharged":
+        ob.detail = f"{len(outs)} paths ({nret} return, {npanic} panic) for identifiers of 1..{n} lower-case letters"
+        ob.witness = nret > 0
+    ob.queries, ob.solver_s = ex.queries, round(ex.solver_s, 3)
+    res.functions.update(ex.encoded)
+    res.add(ob)
+
+
+def replay_act(ob):
+    from vlib import driver as D
+    m = ob.model or {}
+    if "text" not in m:
+        return None, "not replayable through a public entry point; model re-evaluated in the encoder only"
+    r = D.get("drv-uplc").call("parse", text=m["text"])
+    if "panic" in r:
+        return True, f"uplc::parser::program panics on {m['text']!r}: {str(r['panic'])[:160]}"
+    return False, f"uplc::parser::program answers {str(r)[:120]} on {m['text']!r}"
+
+
 def run(tier: str, seed: int, only=None) -> Result:
     res = Result("C20", tier, seed, "model_checking")
     res.assumptions = [
         "mirsym trusted base: MIR interpreter + library summaries",
         "String::from_utf8, PlutusData::decode_fragment (minicbor) and blst uncompress return Ok or Err and never panic (third-party contract)",
         "stack depth (recursion on deeply nested input) is not visible at MIR level and is outside the claim",
-        "CBOR/hex layers, serde/JSON loading, the Aiken lexer/parser/formatter and the peg UPLC grammar are outside the claim (PARTIAL)",
+        "CBOR/hex layers, serde/JSON loading, the Aiken lexer/parser/formatter and the peg UPLC grammar as a whole are outside the claim (PARTIAL); of the UPLC text grammar only the semantic action that can panic (builtin name lookup) is encoded",
     ]
     res.extra["explanation"] = ("each decoding function is executed symbolically once from an arbitrary decoder state under the representation "
                                 "invariant on a fully symbolic buffer; z3 decides that no panic path is feasible and the invariant is preserved")
     res.extra["trusted_base"] = ["rustc nightly MIR dump (uplc, pallas-codec)", "mirsym/exec.py", "mirsym/summaries.py", "z3 5.1"]
     kf = KnownFindings()
     world = World(("uplc",), deps=("pallas-codec",))
-    for fam, f in (("prim", prim_family), ("dec", dec_family)):
+    for fam, f in (("prim", prim_family), ("dec", dec_family), ("act", act_family)):
         if only and only not in fam:
             continue
         t = time.time()
         f(world, res, tier)
         log(f"[C20] {fam}: {time.time() - t:.1f}s")
     from props import common_post
-    common_post.postprocess(res, kf, replay_fn=None)
+    common_post.postprocess(res, kf, replay_fn=lambda ob: replay_act(ob) if ob.name.startswith("act/") else (None, "not replayable through a public entry point; model re-evaluated in the encoder only (pallas-codec findings were replayed by hand through from_flat, see known_findings.json)"))
     return res
